@@ -52,6 +52,8 @@ class Store:
         self.tree: dict = {}
         self.hdr_seq = [cfg.get("seq0", 3), cfg.get("seq0", 3) - 1]
         self.obj = [[0, 0, 0, 0] for _ in range(OBJ_ENTRIES)]  # type, offset, size, allocated
+        self.freed: list[tuple[int, int]] = []
+        self.reused = 0
         self.obj2: list | None = None  # entries of an additional object table (registered in the first one), if any
         self.obj2_off = None
         self.tables: dict[int, dict] = {}  # index -> {"seq","off","size","buf","end","slot"}
@@ -72,6 +74,14 @@ class Store:
         self.writes.append((off, bytes(data)))
 
     def _alloc(self, size: int) -> int:
+        need = (size + ALIGN - 1) // ALIGN * ALIGN
+        if self.cfg.get("reuse") and self.rng.random() < 0.7:
+            # space of a released object is handed out again (its stale, deallocated entry may still name the offset)
+            for i, (o, sz) in enumerate(self.freed):
+                if sz >= need:
+                    del self.freed[i]
+                    self.reused += 1
+                    return o
         off = self.next_off
         self.next_off += (size + ALIGN - 1) // ALIGN * ALIGN
         if self.cfg.get("gaps") and self.rng.random() < 0.3:
@@ -207,6 +217,7 @@ class Store:
                 self._set_obj(old_slot, [OBJ_FREE, o[1], o[2], 1] if how == "free" else [o[0], o[1], o[2], 0] if how == "unalloc" else [0, 0, 0, 0])
                 self._write_obj_entry(old_slot)
                 self._after_commit()
+                self.freed.append((o[1], (o[2] + ALIGN - 1) // ALIGN * ALIGN))
         t["off"] = new_off
 
     def _after_commit(self):
